@@ -29,7 +29,7 @@ def replay_decode(msg, enc, hexbm, cfg):
     from cardutil import iso8583
     cfgs = _cfg(cfg)
     m = ref.concrete_msg(msg, cfgs)
-    wire = ref.ref_encode(m, cfgs, enc, hexbm)
+    wire = ref.ref_encode(m, cfgs, enc, hexbm, keep_empty=True)      # a zero count is part of the documented layout
     want, _ = ref.ref_decode(wire, cfgs, enc, hexbm)
     try:
         got = iso8583.loads(wire, encoding=enc, hex_bitmap=hexbm, iso_config=cfgs if isinstance(cfg, dict) else None)
